@@ -117,7 +117,9 @@ type holder struct {
 	// open (open returned success), refused (stepping open returned an error; step mode only), dead
 	status string
 	ops    []string // lock-file operations of the stepping open, pids mapped to names
-	reaped bool
+	// beganUnder: the process that held the cache when this process's stepping open began
+	beganUnder string
+	reaped     bool
 }
 
 type harnessError struct{ msg string }
@@ -610,6 +612,11 @@ func (x *execution) pidsText(s string) string {
 
 var pidToken = regexp.MustCompile(`[0-9]+`)
 
+// scrub makes an error text deterministic: scratch paths and pids are replaced.
+func (x *execution) scrub(s string) string {
+	return x.pidsText(strings.ReplaceAll(s, x.dir, "<dir>"))
+}
+
 func namesPid(msg string, pid int) bool {
 	return regexp.MustCompile(`(^|[^0-9])` + strconv.Itoa(pid) + `([^0-9]|$)`).MatchString(msg)
 }
@@ -737,7 +744,7 @@ func (x *execution) died(event string, h *holder) {
 func (x *execution) openOutcome(event string, h *holder, m holderMsg, q string, lockBefore string, before map[string]string) {
 	outcome := "ok"
 	if !m.OK {
-		outcome = "error: " + x.pidsText(m.Err)
+		outcome = "error: " + x.scrub(m.Err)
 	}
 	if len(m.Events) > 0 {
 		for _, e := range m.Events {
@@ -874,8 +881,9 @@ func (x *execution) evClose(event string, h *holder) {
 	h.status = "idle"
 	delete(x.holding, h.name)
 	if !m.OK {
-		x.obs(event, "error: "+x.pidsText(m.Err), "")
-		x.report("close-failed", "holder-close|"+x.ctx(), fmt.Sprintf("Close of %s returned %q", h.name, m.Err))
+		// not a clean close: the statement says nothing about what follows, the model stops here
+		x.obs(event, "error: "+x.scrub(m.Err)+" lock="+lockKind(x.lockClass()), m.Err)
+		x.res.Broken = true
 		return
 	}
 	x.obs(event, "ok lock="+lockKind(x.lockClass()), "")
@@ -1057,7 +1065,14 @@ wait:
 // ---- inside of open --------------------------------------------------------------------------------
 
 func (x *execution) evStep(event string, h *holder, cmd string) {
-	q := x.liveHolder()
+	if cmd == "open-step" {
+		h.beganUnder = x.liveHolder()
+	}
+	// a refusal is judged only when the attempt began while the holder already held the cache
+	q := h.beganUnder
+	if q != "" && !x.holding[q] {
+		q = ""
+	}
 	x.send(h, cmd)
 	m, alive := x.recv(h)
 	if !alive {
@@ -1090,7 +1105,7 @@ func (x *execution) evStep(event string, h *holder, cmd string) {
 		h.status = "open"
 	} else {
 		h.status = "refused"
-		outcome = "error: " + x.pidsText(m.Err)
+		outcome = "error: " + x.scrub(m.Err)
 	}
 	last := ""
 	if len(h.ops) > 0 {
@@ -1110,8 +1125,8 @@ func (x *execution) evStep(event string, h *holder, cmd string) {
 				fmt.Sprintf("%s (pid %d) holds the cache; the open of %s failed with %q", q, x.holders[q].pid, h.name, m.Err))
 		}
 	default:
-		// no process held the cache when this open failed (the other one is still inside its own
-		// open, or dead): the statement does not say what must happen; recorded, not judged
+		// no process held the cache when this attempt began (the other one was still inside its
+		// own open, or is dead): the statement does not say what must happen; recorded, not judged
 	}
 }
 
